@@ -560,8 +560,10 @@ func (dr *Driver) setup(st *svcState) (err error) {
 			args[i] = reflect.ValueOf(formatter)
 		case pt == reflect.TypeOf((*goahttp.Upgrader)(nil)).Elem():
 			args[i] = reflect.ValueOf(newUpgrader()).Convert(pt) // a real gorilla upgrader (stream.go)
+		case isMultipartDecoderT(pt):
+			args[i] = multipartDecoder(pt) // the lab's user decoder of a MultipartRequest() endpoint (multipart.go)
 		default:
-			args[i] = reflect.Zero(pt) // configurer, multipart decoders ...
+			args[i] = reflect.Zero(pt) // configurer ...
 		}
 	}
 	server := reflect.ValueOf(sv.ServerNew).Call(args)[0]
@@ -765,7 +767,7 @@ func (dr *Driver) runWith(c *Case, useGlobal bool, onStart func(*Exchange)) *Exc
 			ex.BuildErr = "client lacks method " + gn
 			return
 		}
-		ep, ok := m.Call(nil)[0].Interface().(goa.Endpoint)
+		ep, ok := dr.clientEndpoint(st, c.Method, m) // multipart.go (endpoints taking a user encoder are built once)
 		if !ok {
 			ex.BuildErr = "client method does not return a goa.Endpoint"
 			return
